@@ -643,41 +643,52 @@ def conditions(tier, seed):
 
 # ------------------------------------------------------------------ validation of the reference on concrete inputs
 def validate():
+    """the reference canonical form against hand-written expectations (independent of the live converter), the
+    known-class predicate, and a few results that the repo's own tests pin down"""
     bad = []
-    # the reference must agree with the real converter wherever the real converter succeeds (and yields plain data)
-    n = 0
-    for outer in OUTER_KINDS:
-        if outer == 'range':
-            continue
-        for ik in INNER_KINDS:
-            for t2l in (True, False):
-                for s2l in (True, False):
-                    spec = shape_spec(outer, ik, 2, 7, 'q')
-                    try:
-                        value = build(spec)
-                    except Unbuildable:
-                        continue
-                    node = expected(spec)
-                    probs = problems(node, t2l, s2l)
-                    try:
-                        res = run_finalize(value, engine_with(t2l, s2l), 0)
-                        err = None
-                    except Exception as e:
-                        res, err = None, e
-                    n += 1
-                    if err is None and not probs and not (census_ok(res, t2l, s2l) and match(res, node, t2l, s2l)):
-                        bad.append('reference disagrees with finalisation for %s of %s t2l=%s s2l=%s: got %r' % (outer, ik, t2l, s2l, res))
-                    if err is not None and not probs:
-                        bad.append('finalisation raises %r outside the reference\'s problem classes: %s of %s t2l=%s s2l=%s'
-                                   % (err, outer, ik, t2l, s2l))
-    # repo test expectations (yaql/tests: test_engine / test_collections style)
+    FD = utils.FrozenDict
+    table = [
+        (('tuple', [('leaf', 1), ('list', [('leaf', 'a')])]), True, False, [1, ['a']]),
+        (('tuple', [('leaf', 1), ('list', [('leaf', 'a')])]), False, False, (1, ['a'])),
+        (('frozenset', [('leaf', 1), ('leaf', 2)]), True, True, [2, 1]),
+        (('frozenset', [('leaf', 1), ('leaf', 2)]), True, False, {1, 2}),
+        (('frozendict', [('tuple', [('leaf', 1)]), ('generator', [('leaf', 2)])]), True, False, {'f0': [1], 'f1': [2]}),
+        (('frozendict', [('tuple', [('leaf', 1)]), ('generator', [('leaf', 2)])]), False, True, {'f0': (1,), 'f1': [2]}),
+        (('frozendict-keys', [('tuple', [('leaf', 1)])]), False, False, {(1,): 0}),
+        (('itemsview', [('leaf', 5)]), True, False, [['f0', 5]]),
+        (('itemsview', [('leaf', 5)]), False, False, {('f0', 5)}),
+        (('itemsview', [('leaf', 5)]), False, False, [('f0', 5)]),
+        (('keysview', [('leaf', 'k')]), True, True, ['k']),
+        (('valuesview', [('frozenset', [('leaf', 1)])]), True, False, [{1}]),
+        (('ordering', [('leaf', 1), ('leaf', 2)]), True, False, [1, 2]),
+        (('range', 3), True, False, [0, 1, 2]),
+        (('list', [('frozendict', [('leaf', None)])]), True, False, [{'f0': None}]),
+    ]
+    for spec, t2l, s2l, want in table:
+        if not (census_ok(want, t2l, s2l) and match(want, expected(spec), t2l, s2l)):
+            bad.append('reference rejects the hand-written canonical form %r of %s (t2l=%s s2l=%s)' % (want, spec_text(spec), t2l, s2l))
+    for spec, t2l, s2l, wrong in [(('tuple', [('leaf', 1)]), True, False, (1,)), (('frozenset', [('leaf', 1)]), True, True, {1}),
+                                  (('generator', [('leaf', 1)]), False, False, (1,)), (('frozendict', [('leaf', 1)]), True, False, FD({'f0': 1})),
+                                  (('list', [('tuple', [('leaf', 1)])]), True, False, [(1,)])]:
+        if census_ok(wrong, t2l, s2l) and match(wrong, expected(spec), t2l, s2l):
+            bad.append('reference accepts the non-canonical %r for %s (t2l=%s s2l=%s)' % (wrong, spec_text(spec), t2l, s2l))
+    for spec, t2l, s2l, want in [(('frozenset', [('tuple', [('leaf', 1)])]), True, False, ['C10/set-element-collection']),
+                                 (('frozenset', [('tuple', [('leaf', 1)])]), False, False, []),
+                                 (('frozendict-keys', [('tuple', [('leaf', 1)])]), True, True, ['C10/dict-key-collection']),
+                                 (('itemsview', [('leaf', 1)]), True, False, ['C10/mapping-view-unhashable']),
+                                 (('itemsview', [('leaf', 1)]), True, True, [])]:
+        if problems(expected(spec), t2l, s2l) != want:
+            bad.append('class predicate wrong for %s (t2l=%s s2l=%s): %r' % (spec_text(spec), t2l, s2l, problems(expected(spec), t2l, s2l)))
+    # results pinned down by the repo's own tests (yaql/tests/test_queries.py, test_collections.py)
     for text, want in [('[1, 2].select($ + 1)', [2, 3]), ('dict(a => 1).keys().toList()', ['a']), ('{a => [1, 2]}', {'a': [1, 2]}),
                        ('[1, [2, 3]].flatten()', [1, 2, 3])]:
-        got = yq.ev(text)
+        try:
+            got = yq.ev(text)
+        except Exception as e:
+            got = e
         if got != want:
             bad.append('%s -> %r, expected %r' % (text, got, want))
-    # only report finaliser failures here if they are NOT the known classes; those are reported by the conditions
-    return [b for b in bad if 'reference disagrees' in b or 'expected' in b][:5]
+    return bad[:5]
 
 
 # ------------------------------------------------------------------ replay
@@ -716,6 +727,16 @@ def replay(cond, args):
         outer, ik = PROBE_SHAPES[p['probe_key']][vals['i']]
         spec = shape_spec(outer, ik, 1, 0, '')
         node = expected(spec)
+    elif f == 'roundtrip_history':
+        doc = {'servers': [1, 2]}
+        st = engine_with(t2l, s2l)('$')
+        first = st.evaluate(data=doc, context=yaql.create_context())
+        doc['servers'].append(3)
+        second = st.evaluate(data=doc, context=yaql.create_context())
+        return {'reproduced': True, 'key': 'C10/roundtrip_history',
+                'what': 'one parsed `$` evaluated on %r gives %r; after the host appended 3 to the list in place the same statement '
+                        'gives %r (mutation %s of the harness: %r)' % ({'servers': [1, 2]}, first, second,
+                                                                       MUTATIONS[vals['mut']], vals)}
     else:
         return {'reproduced': True, 'key': 'C10/' + f, 'what': '%s fails for %r (%r)' % (cond['name'], vals, err)}
     probs = problems(node, t2l, s2l)
@@ -727,7 +748,7 @@ def replay(cond, args):
         if f == 'roundtrip':
             got = repr(engine_with(t2l, s2l)('$').evaluate(data=build(spec), context=yaql.create_context()))
         else:
-            got = repr(run_finalize(build(spec), engine_with(t2l, s2l), 0))
+            got = repr(run_finalize(build(spec), engine_with(t2l, s2l), p.get('via', vals.get('via', 0))))
     except Exception as e:
         got = 'raises %r' % e
     text = YAQL_TEXT.get((spec[0], spec[1][0][0] if spec[1] and spec[1][0][0] != 'leaf' else 'leaf-int'))
